@@ -971,10 +971,32 @@ pub fn drv_eval<R: Rd>(p: &mut Probe, bytes: R, enc: Encoding, mut choice: u64, 
         // more operations
         nested.extend(other_buffers.iter().cloned());
     }
+    let choice0 = choice;
+    for (obj, init) in [(false, false), (true, true)] {
+        let ev = Expression(bytes.clone()).evaluation(enc);
+        resume_loop(p, ev, obj, init, &mut choice, &nested);
+    }
+    // the same with a fixed-capacity storage: two stack slots, one call frame, one piece -
+    // overflowing any of them must be the StackFull error, never a panic
+    choice = choice0;
+    for (obj, init) in [(false, false), (true, true)] {
+        let ev = gimli::Evaluation::<R, SmallStore>::new_in(bytes.clone(), enc);
+        resume_loop(p, ev, obj, init, &mut choice, &nested);
+    }
+}
+
+/// Evaluation storage with room for 2 values, 1 call frame and 1 piece.
+pub struct SmallStore;
+impl<R: Reader> gimli::EvaluationStorage<R> for SmallStore {
+    type Stack = [Value; 2];
+    type ExpressionStack = [(R, R); 1];
+    type Result = [gimli::Piece<R>; 1];
+}
+
+fn resume_loop<R: Rd, S: gimli::EvaluationStorage<R>>(p: &mut Probe, mut ev: gimli::Evaluation<R, S>, obj: bool, init: bool, choice: &mut u64, nested: &[R]) {
     let vals = eval_values();
     let tys = eval_types();
-    for (obj, init) in [(false, false), (true, true)] {
-        let mut ev = Expression(bytes.clone()).evaluation(enc);
+    {
         ev.set_max_iterations(64);
         if obj {
             ev.set_object_address(0x1000);
@@ -990,8 +1012,8 @@ pub fn drv_eval<R: Rd>(p: &mut Probe, bytes: R, enc: Encoding, mut choice: u64, 
                 p.fail("Evaluation::resume", "termination", "evaluation-not-bounded-by-iteration-limit", "more than 200 resumes with max_iterations 64".into());
                 break;
             }
-            let c = (choice % EVAL_CHOICES) as usize;
-            choice /= EVAL_CHOICES;
+            let c = (*choice % EVAL_CHOICES) as usize;
+            *choice /= EVAL_CHOICES;
             let v = vals[c % vals.len()];
             let u = if c % 2 == 0 { 0 } else { u64::MAX };
             res = match res {
